@@ -388,13 +388,20 @@ def write_replay(seed, m):
     return path
 
 
-def confirm_replay(path):
+def confirm_replay(path, want=None):
     """Re-execute the replay file in a fresh interpreter; True iff it fails the same way."""
     env = dict(os.environ)
     env.pop("PYTHONOPTIMIZE", None)  # the replay file says which interpreter mode it needs
     env.pop("CHMPY_VERIF_OPTIMIZE", None)
     p = subprocess.run([sys.executable, CHECK, "--replay", path], capture_output=True, text=True, env=env, timeout=600)
-    return p.returncode == 1 and "REPRODUCED exact" in p.stdout, p.stdout + p.stderr
+    ok = p.returncode == 1 and "REPRODUCED exact" in p.stdout
+    if not ok and p.returncode == 1 and want is not None:
+        # the same clause fails at the same step of the same operation but with
+        # other values: the library's answer itself is not a function of the
+        # history (e.g. it reads uninitialised memory, as finding F5 did) -
+        # the violation is confirmed, its digests simply cannot repeat
+        ok = ("REPRODUCED different class=%s step=%d op=%s " % (want["class"], want["step"], want["op"])) in p.stdout
+    return ok, p.stdout + p.stderr
 
 
 def handle_violations(seed, batch, pool):
@@ -436,7 +443,7 @@ def handle_violations(seed, batch, pool):
                 klines.append(line)
             continue
         path = write_replay(seed, m)
-        ok, outp = confirm_replay(path)
+        ok, outp = confirm_replay(path, m["violation"])
         if not ok:
             harness.append("violation %s did not replay exactly (simulator not deterministic?)\n%s" % (path, outp))
             continue
